@@ -574,7 +574,7 @@ def run_tree_job(job, body, site_default='diff', path_wall_s=20, tick_cap=40000,
     MONITOR.install()
     alpha = job.get('alpha', 3)
     samples = []
-    counters = dict(exception_paths=0, hang_paths=0)
+    counters = dict(exception_paths=0, hang_paths=0, oracle_reached=0)
 
     def fn(eng):
         stubs.LSA_MEMO = {}       # scipy is a function of its input: same symbolic table => same assignment on this path
@@ -593,6 +593,8 @@ def run_tree_job(job, body, site_default='diff', path_wall_s=20, tick_cap=40000,
         if len(samples) < 2:
             samples.append(dict(A=wit['A'], B=wit['B'], dict=wit['dict'], list=wit['list']))
         fails = list(res or [])
+        if res is not None and not aborted and not any(f['tag'].startswith('exception') for f in fails):
+            counters['oracle_reached'] += 1
         if aborted:
             counters['hang_paths'] += 1
             if hang_tags:
@@ -616,6 +618,7 @@ def run_tree_job(job, body, site_default='diff', path_wall_s=20, tick_cap=40000,
                  max_fail=max_fail)
     st['samples'] = samples
     st['extra'] = counters
+    st['twin_reached'] = counters['oracle_reached'] > 0      # reachability: the oracle's final assertion point was reached
     return dict(st)
 
 
